@@ -14,9 +14,9 @@ CONSTANTS
   Http10NoChunkedReq = FALSE
   Expect10Proceeds = FALSE
   RefusedPrepareCleansWriter = TRUE
-  FailedPrepareCleansWriter = FALSE
-  WithheldBodyCloses = FALSE
-  HostKeptOnRetry = FALSE
+  FailedPrepareCleansWriter = TRUE
+  WithheldBodyCloses = TRUE
+  HostKeptOnRetry = TRUE
   CutBodyCloses = TRUE
   CancelCloses = TRUE
   FreshHeaderContainer = TRUE
